@@ -914,7 +914,7 @@ pub fn sup_cfg(cfg: &RunCfg, secs_quick: f64, secs_thorough: f64) -> SupCfg {
         run_secs: if cfg.quick() { secs_quick } else { secs_thorough } * cfg.scale,
         max_cases: 0,
         seed: cfg.seed,
-        work_dir: cfg.verif_dir.join("work").join(&cfg.prop),
+        work_dir: cfg.work_dir(),
         cpu_budget_base_s: 5.0,
         cpu_budget_per_byte_s: 50e-6,
     }
@@ -959,7 +959,7 @@ pub fn run(cfg: &RunCfg) -> (PropMeta, ShardOut, Map<String, Value>) {
 /// frame is a violation; any other report is recorded as a note (inconclusive about lopdf).
 fn memcheck_stage(cfg: &RunCfg, out: &mut ShardOut, extra: &mut Map<String, Value>) {
     let exe = std::env::current_exe().expect("exe");
-    let dir = cfg.verif_dir.join("work").join("C04");
+    let dir = cfg.work_dir();
     let _ = std::fs::create_dir_all(&dir);
     let log = dir.join("memcheck.log");
     let wlog = dir.join("memcheck-worker.log");
